@@ -45,7 +45,7 @@ import (
 
 func c12cases(tier string) int {
 	if tier == "thorough" {
-		return 420
+		return 300
 	}
 	return 96
 }
@@ -236,6 +236,9 @@ func c12run(c *runner.Ctx) runner.Result {
 		if !aimed {
 			for try := 0; ; try++ {
 				rg = c12drawRange(rq, all, B, q)
+				if h.costly() && q > 0 && rg.e-rg.s > wideSpan && try <= 60 {
+					continue // on 1Sec..30Sec buckets only the first range ("all") scans whole years
+				}
 				if !h.Variable || try > 60 || (!cutsStart(all, h.D, rg.s) && !cutsEnd(all, h.D, rg.e)) {
 					break
 				}
